@@ -213,7 +213,8 @@ func pbesGrid(x *mon.Ctx) {
 	}
 }
 
-func pbesCase(c *mon.Case, cb combo, salt, wf int, pk, label string, nWrong int) {
+// pbesCase returns the length of the PrivateKeyInfo that was encrypted (0 when the case stopped early).
+func pbesCase(c *mon.Case, cb combo, salt, wf int, pk, label string, nWrong int) (plainLen int) {
 	s, err := newSubject(c.R, label)
 	if err != nil {
 		c.Fail("mismatch", "building the key: %v", err)
@@ -230,6 +231,7 @@ func pbesCase(c *mon.Case, cb combo, salt, wf int, pk, label string, nWrong int)
 	if der == nil {
 		return
 	}
+	plainLen = len(plainDER)
 	c.Detail("container", der)
 	sum := sha256.Sum256(der)
 	c.Digest(fmt.Sprintf("pbes/%d", c.N), sum[:12])
@@ -286,4 +288,5 @@ func pbesCase(c *mon.Case, cb combo, salt, wf int, pk, label string, nWrong int)
 			c.Detail("note", "the key returned is the original key")
 		}
 	}
+	return plainLen
 }
